@@ -5,7 +5,6 @@ import (
 	"math"
 	"math/big"
 	"reflect"
-	"strings"
 
 	"verif/core"
 
@@ -124,7 +123,7 @@ func checkValue(p *p1rt, x reflect.Value, mapper int, noView bool) (fails []p1fa
 			p.drop(mapper)
 			rt, dfn = p.get(mapper)
 			v = rt.ToValue(xi)
-			if strings.Contains(want, "<nil-embedded>") {
+			if hasNilEmbedded(x) {
 				add("host-panic|read-promoted-field-of-nil-embedded-pointer|"+normPanic(pan), "reading a field promoted through a nil embedded pointer panics the host: "+pan)
 			} else {
 				add("host-panic|read|"+cls+"|"+normPanic(pan), "reading the wrapper from script panics: "+pan)
